@@ -30,6 +30,34 @@ WALL_CAP = {"quick": 900, "thorough": 3300}
 FORK_EACH = False
 KNOWN = dict(K.PREDICATES)
 
+
+def _mixed_region(case):
+    """'var_below' / 'regular_nd' / None: see known finding broadcast_leaf_meets_regular"""
+    if case.get("family") != "var":
+        return None
+    types, nd = [], False
+    for op in case["operands"]:
+        if op["k"] == "scalar":
+            types.append(["list", M.prim(op["dtype"])])     # enters as a length-1 array, repeated at the top level
+            continue
+        T, _ = M.decode(op["desc"])
+        types.append(["list", T])
+        nd = nd or "numpy_nd" in gen.features(op["desc"])
+    r = B.leaf_meets_regular(types, True)
+    if r == "var_below":
+        return r
+    if r == "regular_below" and nd:
+        return "regular_nd"
+    return None
+
+
+def _known_leaf_meets_regular(case, vio):
+    kind = vio.get("bucket", "").split(":")[0]
+    return kind in ("refused", "value") and _mixed_region(case) is not None
+
+
+KNOWN["broadcast_leaf_meets_regular"] = _known_leaf_meets_regular
+
 BINARY = ["add", "subtract", "multiply", "less", "equal", "maximum", "logical_and"]
 UNARY = ["negative", "absolute"]
 OPERATORS = {"add": operator.add, "subtract": operator.sub, "multiply": operator.mul, "less": operator.lt, "equal": operator.eq,
